@@ -26,7 +26,7 @@ LEVEL_NOTE = ("trusted: translator + Xval semantics, hand models of the sums / g
 TECHNIQUE = "Coq proof over translator-regenerated kernels + extracted-model correspondence check (exhaustive tie grids)"
 SITES = ["C12.firm_single", "C12.firm_guards", "C12.murphy_quantile", "C12.murphy_huber", "C12.murphy_expectile", "C12.rms_cell", "C12.rms_guards"]
 RULE = ("(a) exhaustive FIRM tie grid: fcst, obs, threshold in {0,1,2,NaN,+inf,-inf}^3 x both assignments x discount {0,1/2,1,5,inf} x alpha {1/4,7/10}, "
-        "implementation vs regenerated kernel vs proved specification, plus the Murphy link (finite-or-NaN forecasts; observations and thetas "
+        "implementation vs regenerated kernel vs proved specification, plus the Murphy link (forecasts, observations and thetas "
         "incl. +-inf; quantile / Huber / expectile) and the mirror relation on the implementation; (a') non-finite probe: fcst / obs over "
         "{-inf,0,1,3,+inf,NaN} and {-1e308,0,1,1e308,+-inf} (sums and differences overflow), scalar and per-case thresholds incl. +-inf / "
         "+-1e308, 1-3 weighted thresholds, discount {None,0,1,5/2,inf}, against the exact oracle in the extended reals; "
@@ -40,12 +40,13 @@ RULE = ("(a) exhaustive FIRM tie grid: fcst, obs, threshold in {0,1,2,NaN,+inf,-
         "grid (forecast probability on / off each threshold, obs 0/1/NaN, both assignments); (d) random risk_matrix_score calls with random "
         "weight matrices, shuffled coordinates, NaN, weights, malformed inputs; (d') Dataset inputs: 2-3 forecast variables whose NaN positions "
         "differ against an observation Dataset or DataArray (each variable must score as it does alone); "
+        "(d'') defaults: every subset of the optional arguments of firm / risk_matrix_score / murphy_score omitted, in 8-11 configurations each, "
+        "against the exact oracle at the documented defaults and against the call with the defaults written out; "
         "(e) matrix_weights_to_array and weights_from_warning_scaling on "
         "random and all small valid scaling matrices. A case is distinct by the hash of (function, inputs, options); non-trivial when an output "
         "is finite.")
 ASSUMPTIONS = ["severity labels are compared as numbers (the harness uses integer labels)",
-               "FIRM = weighted Murphy identity: forecasts finite or NaN (murphy_impl.py's zero array `fcst * 0.0` is NaN for an infinite forecast; "
-               "observations and thresholds may be infinite); very large finite values (1e308) are checked without discount_distance = inf",
+               "very large finite values (1e308) are checked without discount_distance = inf",
                "a float-typed scaling matrix (rejected by dtype) is checked on the implementation only"]
 TRUSTED = ["hand models in coq/model/C12.v (threshold sums, Murphy NaN merge, guards, matrix_weights_to_array, _scaling_to_weight_matrix): tied by correspondence only"]
 
@@ -58,7 +59,7 @@ FVARS = ["firm_score", "overforecast_penalty", "underforecast_penalty"]
 # Only a deviation that is EXACTLY that behaviour (the oracle evaluated with `legacy=True`) is attributed to the finding.
 FINDING_INF = "firm-discount-infinite-obs"
 # harness self-check (core.run_check): counters every complete run must have incremented, one per predicate family / input class
-EXPECT_COUNTS = ["corpus_cases", "guard_boundary_probes", "firm_oracle_grid_points", "firm_oracle_grid_infinite_points", "firm_scalar_threshold_points",
+EXPECT_COUNTS = ["corpus_cases", "firm_defaults_calls", "rms_defaults_calls", "murphy_defaults_calls", "guard_boundary_probes", "firm_oracle_grid_points", "firm_oracle_grid_infinite_points", "firm_scalar_threshold_points",
                  "firm_nonfinite_points", "firm_integer_dtype_points", "murphy_da_link_points", "rms_oracle_grid_points", "rms_oracle_grid_integer_obs_points", "rms_dataset_probe_points",
                  "rms:dataset_vars_checked", "firm:oracle_checked", "firm:oracle_checked_infinite", "rms:oracle_checked", "wfs:oracle_checked",
                  "mwa:oracle_checked", "firm_grid_points", "firm_grid_infinite_points", "murphy_link_points", "murphy_link_infinite_points",
@@ -366,9 +367,8 @@ def murphy_da_link(ctx):
     """FIRM = Murphy elementary score with thetas given as a DataArray varying along the data dimension and containing NaN:
     murphy_score (total / over / under) vs the exact oracle and vs firm with the same per-case thresholds"""
     CAT, CON, _ = S()
-    vals = [0.0, 1.0, 2.0, NAN]
-    xvals = vals + [INF, -INF]       # observations and thetas may be infinite (forecasts: finite or NaN, see firm_grid)
-    cases = list(itertools.product(vals, xvals, xvals))
+    xvals = [0.0, 1.0, 2.0, NAN, INF, -INF]       # forecasts, observations and thetas may be infinite (forecasts since /repo 806a3e1)
+    cases = list(itertools.product(xvals, xvals, xvals))
     idx = {"case": range(len(cases))}
     f = xr.DataArray([c[0] for c in cases], dims=["case"], coords=idx)
     o = xr.DataArray([c[1] for c in cases], dims=["case"], coords=idx)
@@ -682,7 +682,155 @@ def mwa_oracle_check(ctx, n):
                           {"prob": sorted(ps, reverse=True), "data": M}, {"prob": da["prob"].values.tolist(), "data": da.values.tolist()})
 
 
+# documented defaults of the optional arguments (signatures and docstrings of firm, risk_matrix_score, murphy_score)
+FIRM_DEFAULTS = {"discount_distance": 0, "reduce_dims": None, "preserve_dims": None, "weights": None, "threshold_assignment": "lower"}
+RMS_DEFAULTS = {"threshold_assignment": "lower", "reduce_dims": None, "preserve_dims": None, "weights": None}
+MURPHY_DEFAULTS = {"huber_a": None, "decomposition": False, "reduce_dims": None, "preserve_dims": None}
+
+
+def expected_dims(data_dims, cfg, extra=()):
+    """the dims rule: preserve_dims='all' keeps everything, a list keeps those; reduce_dims drops those; neither: everything is reduced"""
+    if cfg["preserve_dims"] is not None:
+        keep = list(data_dims) if cfg["preserve_dims"] == "all" else [d for d in data_dims if d in cfg["preserve_dims"]]
+    elif cfg["reduce_dims"] is not None:
+        keep = [d for d in data_dims if d not in cfg["reduce_dims"]]
+    else:
+        keep = []
+    return set(keep) | set(extra)
+
+
+def identical_values(a, b):
+    return set(a.dims) == set(b.dims) and bool(np.array_equal(np.asarray(a, dtype=float), np.asarray(b.transpose(*a.dims), dtype=float), equal_nan=True))
+
+
+def omitted_calls(defaults, configs):
+    """(configuration with every optional argument, the subset of arguments left out, keywords actually passed, effective configuration =
+    documented defaults in place of the omitted ones): every subset of the optional arguments, for every configuration"""
+    names = list(defaults)
+    for cfg in configs:
+        full = dict(defaults, **cfg)
+        for r in range(len(names) + 1):
+            for omit in itertools.combinations(names, r):
+                eff = dict(full, **{k: defaults[k] for k in omit})
+                if eff.get("reduce_dims") is not None and eff.get("preserve_dims") is not None:
+                    continue
+                yield cfg, omit, {k: v for k, v in full.items() if k not in omit}, eff
+
+
+def show_kw(kw):
+    return {k: (gens.da_repr(v) if isinstance(v, xr.DataArray) else v) for k, v in kw.items()}
+
+
+def defaults_probe(ctx):
+    """every optional argument of firm, risk_matrix_score and murphy_score OMITTED vs written out: for a list of configurations (each
+    optional argument at its documented default and at other values) and EVERY subset of the optional arguments left out of the call, the
+    result must (1) have the dims of, and equal, the exact oracle evaluated with the DOCUMENTED default in place of every omitted argument
+    (firm: discount_distance=0, threshold_assignment='lower', weights=None, everything reduced; risk_matrix_score: threshold_assignment=
+    'lower', ...; murphy_score: decomposition=False -> only 'total'), and (2) be identical to the call with those defaults written out.
+    The data sit ON the thresholds (the assignment decides) and within / beyond the discount distance (the discount decides): a default
+    changed in a signature, or a keyword accepted but no longer forwarded, is invisible to calls that always pass the argument."""
+    CAT, CON, EM = S()
+    idx = {"t": [0, 1, 2, 3], "s": [10, 20]}
+    w = xr.DataArray([2.0, 0.5, 3.0, 1.0], dims=["t"], coords={"t": idx["t"]})
+    # ---- firm: forecasts / observations on a threshold (1, 2), misses and false alarms by 1/4, 1/2, 1 and 3 (discount 1/2 and 1 decide), NaN
+    f = xr.DataArray([[1.0, 2.5], [2.0, 0.0], [0.75, 5.0], [NAN, 1.5]], dims=["t", "s"], coords=idx)
+    o = xr.DataArray([[2.0, 1.0], [2.25, 3.0], [1.0, 1.75], [1.0, 2.0]], dims=["t", "s"], coords=idx)
+    ths, wts, alpha = [1.0, 2.0], [1.0, 3.0], Fraction(3, 10)
+    configs = [{}, {"discount_distance": 0.5}, {"discount_distance": None}, {"discount_distance": INF}, {"threshold_assignment": "upper"}, {"weights": w},
+               {"preserve_dims": "all"}, {"reduce_dims": ["t"]}, {"preserve_dims": ["s"], "weights": w, "threshold_assignment": "upper", "discount_distance": 1.0},
+               {"reduce_dims": ["s"], "weights": w, "discount_distance": 0.5}, {"preserve_dims": "all", "threshold_assignment": "upper", "discount_distance": 0.5}]
+    n = 0
+    for cfg, omit, kw, eff in omitted_calls(FIRM_DEFAULTS, configs):
+        got = core.call_impl(CAT.firm, f, o, float(alpha), ths, wts, **kw)
+        desc = {"fn": "firm", "fcst": gens.da_repr(f), "obs": gens.da_repr(o), "risk_parameter": alpha, "categorical_thresholds": ths, "threshold_weights": wts,
+                "omitted_arguments": list(omit), "passed_explicitly": show_kw(kw), "documented_defaults": {k: FIRM_DEFAULTS[k] for k in omit}}
+        ctx.case(("firm_defaults", str(sorted(cfg)), omit))
+        n += 1
+        if got[0] != "ok":
+            ctx.violation("firm raises on a valid call with optional arguments omitted", desc, "values", got[1])
+            continue
+        want = expected_dims(["t", "s"], eff)
+        orc = firm_oracle_arrays(dict(fcst=f, obs=o, alpha=alpha, ths=ths, wts=wts, d=eff["discount_distance"], assign=eff["threshold_assignment"]))
+        ref = core.call_impl(CAT.firm, f, o, float(alpha), ths, wts, **eff)
+        for v in FVARS:
+            if v not in got[1] or set(got[1][v].dims) != want:
+                ctx.violation(f"firm with optional arguments omitted: {v} is missing or its dims differ from those of the documented defaults", desc,
+                              sorted(want), str(got[1])[:150])
+                continue
+            compare_with_oracle(ctx, f"firm {v} with optional arguments omitted differs from the exact oracle evaluated at the DOCUMENTED defaults of the omitted "
+                                "arguments (discount_distance=0, threshold_assignment='lower', weights=None, all dims reduced)", orc[v], eff["weights"], got[1][v], desc)
+            if ref[0] != "ok" or not identical_values(got[1][v], ref[1][v]):
+                ctx.violation(f"firm {v}: the call with optional arguments omitted differs from the call with their documented defaults written out", desc,
+                              str(ref[1])[:200], str(np.asarray(got[1][v]).tolist())[:200])
+    ctx.count("firm_defaults_calls", n)
+    # ---- risk_matrix_score: forecast probabilities ON the probability thresholds (1/4, 1/2, 3/4) and off them, obs 0 / 1 / NaN
+    sev = [0, 1, 2]
+    dw = xr.DataArray([[2.0, 3.0, 0.5], [1.5, 2.0, 3.0], [1.0, 0.0, 2.0]], dims=["prob", "sev"], coords={"prob": [0.75, 0.5, 0.25], "sev": sev})
+    fr_ = xr.DataArray([[[0.75, 0.5, 0.25], [0.5, 0.5, 0.0]], [[0.25, 0.75, 0.5], [1.0, 0.25, 0.375]], [[0.75, 0.25, 0.75], [0.5, NAN, 0.25]],
+                        [[0.0, 0.625, 0.25], [0.25, 0.25, 0.5]]], dims=["t", "s", "sev"], coords=dict(idx, sev=sev))
+    or_ = xr.DataArray([[[0.0, 0.0, 0.0], [1.0, 1.0, 1.0]], [[1.0, 0.0, 1.0], [0.0, 1.0, 0.0]], [[1.0, 1.0, 0.0], [0.0, 0.0, 1.0]],
+                        [[0.0, 1.0, NAN], [1.0, 0.0, 0.0]]], dims=["t", "s", "sev"], coords=dict(idx, sev=sev))
+    configs = [{}, {"threshold_assignment": "upper"}, {"weights": w}, {"preserve_dims": "all"}, {"reduce_dims": ["t"]},
+               {"preserve_dims": ["s"], "weights": w, "threshold_assignment": "upper"}, {"reduce_dims": ["s"], "weights": w},
+               {"preserve_dims": "all", "threshold_assignment": "upper", "weights": w}]
+    n = 0
+    for cfg, omit, kw, eff in omitted_calls(RMS_DEFAULTS, configs):
+        got = core.call_impl(EM.risk_matrix_score, fr_, or_, dw, "sev", "prob", **kw)
+        desc = {"fn": "risk_matrix_score", "fcst": gens.da_repr(fr_), "obs": gens.da_repr(or_), "decision_weights": gens.da_repr(dw), "omitted_arguments": list(omit),
+                "passed_explicitly": show_kw(kw), "documented_defaults": {k: RMS_DEFAULTS[k] for k in omit}}
+        ctx.case(("rms_defaults", str(sorted(cfg)), omit))
+        n += 1
+        if got[0] != "ok":
+            ctx.violation("risk_matrix_score raises on a valid call with optional arguments omitted", desc, "values", got[1])
+            continue
+        want = expected_dims(["t", "s"], eff)
+        if set(got[1].dims) != want:
+            ctx.violation("risk_matrix_score with optional arguments omitted: result dims differ from those of the documented defaults", desc, sorted(want),
+                          sorted(got[1].dims))
+            continue
+        compare_with_oracle(ctx, "risk_matrix_score with optional arguments omitted differs from the exact oracle evaluated at the DOCUMENTED defaults of the "
+                            "omitted arguments (threshold_assignment='lower': f_i >= p_j charges p_j when y_i = 0, f_i < p_j charges 1 - p_j when y_i = 1; weights=None; "
+                            "all dims reduced)", rms_oracle_array(dict(fcst=fr_, obs=or_, dw=dw, assign=eff["threshold_assignment"])), eff["weights"], got[1], desc)
+        ref = core.call_impl(EM.risk_matrix_score, fr_, or_, dw, "sev", "prob", **eff)
+        if ref[0] != "ok" or not identical_values(got[1], ref[1]):
+            ctx.violation("risk_matrix_score: the call with optional arguments omitted differs from the call with their documented defaults written out", desc,
+                          str(np.asarray(ref[1]).tolist())[:200], str(np.asarray(got[1]).tolist())[:200])
+    ctx.count("rms_defaults_calls", n)
+    # ---- murphy_score (the other side of the FIRM = Murphy link): decomposition / huber_a / dims requests omitted
+    thetas = [1.0, 2.0]
+    n = 0
+    for functional, hub, d in (("quantile", None, 0), ("huber", 0.5, 0.5), ("huber", 4.0, 4.0), ("expectile", None, INF)):
+        configs = [{"huber_a": hub}, {"huber_a": hub, "decomposition": True}, {"huber_a": hub, "preserve_dims": "all"}, {"huber_a": hub, "reduce_dims": ["t"]},
+                   {"huber_a": hub, "decomposition": True, "preserve_dims": ["s"]}]
+        for cfg, omit, kw, eff in omitted_calls(MURPHY_DEFAULTS, configs):
+            if functional == "huber" and eff["huber_a"] is None:
+                continue            # huber_a is required for the Huber functional
+            got = core.call_impl(CON.murphy_score, f, o, thetas, functional=functional, alpha=float(alpha), **kw)
+            desc = {"fn": "murphy_score", "fcst": gens.da_repr(f), "obs": gens.da_repr(o), "thetas": thetas, "functional": functional, "alpha": alpha,
+                    "omitted_arguments": list(omit), "passed_explicitly": kw, "documented_defaults": {k: MURPHY_DEFAULTS[k] for k in omit}}
+            ctx.case(("murphy_defaults", functional, str(hub), str(sorted(cfg)), omit))
+            n += 1
+            if got[0] != "ok":
+                ctx.violation("murphy_score raises on a valid call with optional arguments omitted", desc, "values", got[1])
+                continue
+            names = ["total", "underforecast", "overforecast"] if eff["decomposition"] else ["total"]
+            want = expected_dims(["t", "s"], eff, extra=["theta"])
+            if sorted(got[1].data_vars) != sorted(names) or any(set(got[1][v].dims) != want for v in names):
+                ctx.violation("murphy_score with optional arguments omitted: variables / dims differ from those of the documented defaults (decomposition=False: "
+                              "'total' only; all dims but theta reduced)", desc, {"variables": names, "dims": sorted(want)}, str(got[1])[:200])
+                continue
+            for v, fv in (("total", "firm_score"), ("overforecast", "overforecast_penalty"), ("underforecast", "underforecast_penalty")):
+                if v not in names:
+                    continue
+                pc = xr.concat([firm_oracle_arrays(dict(fcst=f, obs=o, alpha=alpha, ths=[t_], wts=[1.0], d=d, assign="lower"))[fv] for t_ in thetas],
+                               dim=xr.DataArray(thetas, dims=["theta"], name="theta"))
+                compare_with_oracle(ctx, f"murphy_score {v} ({functional}) with optional arguments omitted differs from the elementary score at the documented "
+                                    "defaults (exact oracle)", pc, None, got[1][v], desc)
+    ctx.count("murphy_defaults_calls", n)
+
+
 def oracle_checks(ctx, scale=1):
+    defaults_probe(ctx)
     firm_oracle_grid(ctx)
     firm_scalar_threshold_probe(ctx)
     firm_nonfinite_probe(ctx)
@@ -736,10 +884,9 @@ def firm_grid(ctx):
     ctx.count("firm_grid_points", n)
     ctx.count("firm_grid_infinite_points", n_inf)
     # Murphy link (lower assignment): firm = Murphy elementary score at theta = threshold
-    # observations and thresholds may be infinite; the FORECAST stays finite-or-NaN: murphy_impl.py builds its zero array as `fcst * 0.0`,
-    # NaN for an infinite forecast, so murphy_score returns 0 instead of the penalty there (quantile / Huber) -- a defect of murphy_score
-    # that is being repaired separately; FIRM itself is checked with infinite forecasts above
-    fo = [(a_, b_) for a_ in [0.0, 1.0, 2.0, NAN] for b_ in vals]
+    # forecasts, observations and thresholds may be infinite (round 5: forecasts too -- murphy_impl.py built its zero array as `fcst * 0.0`,
+    # NaN for an infinite forecast, until /repo 806a3e1 replaced it by xr.zeros_like(fcst, dtype=float))
+    fo = [(a_, b_) for a_ in vals for b_ in vals]
     f2 = xr.DataArray([c[0] for c in fo], dims=["case"], coords={"case": range(len(fo))})
     o2 = xr.DataArray([c[1] for c in fo], dims=["case"], coords={"case": range(len(fo))})
     n_link = n_link_inf = 0
@@ -758,7 +905,7 @@ def firm_grid(ctx):
                                                                               enc_num(hub if hub else 1), enc_str(functional)])))
                     ctx.case(("murphy_link", fv, ov, tv, a, d), nontrivial=not np.isnan(trip[0]))
                     n_link += 1
-                    n_link_inf += bool(np.isinf(ov) or np.isinf(tv))
+                    n_link_inf += bool(np.isinf(fv) or np.isinf(ov) or np.isinf(tv))
                     for i_, (name, x, y, q) in enumerate(zip(FVARS, [float(r[v].values[k]) for v in FVARS], trip, m)):
                         if not same(x, y):
                             tru = firm_cell_oracle(fv, ov, Fraction(str(a)), [(tv, 1.0)], d, "lower")[i_]
@@ -972,7 +1119,7 @@ def check_mean_of_cases(ctx, fn, per_case, weights, result, desc):
 
 def firm_murphy_sum(ctx):
     """firm (lower) per case = sum_j w_j * Murphy elementary score at theta = threshold_j, on the implementation.
-    Observations and thresholds may be infinite (20 % of the cases); forecasts are finite or NaN (murphy_score's `fcst * 0.0`, see firm_grid)"""
+    Forecasts, observations and thresholds may be infinite (20 % of the cases; forecasts since /repo 806a3e1, see firm_grid)"""
     CAT, CON, _ = S()
     rng = ctx.rng
     grid = [Fraction(k, 2) for k in range(-4, 5)]
@@ -986,6 +1133,8 @@ def firm_murphy_sum(ctx):
         obs = gens.rand_da(rng, sizes, dims=odims, values=grid, nan_p=rng.choice([0.0, 0.15]))
         if inf:
             obs = poke_some(rng, obs, [INF, -INF], 0.3)
+            if rng.random() < 0.6:
+                fcst = poke_some(rng, fcst, [INF, -INF], 0.25)
         k = rng.randint(1, 3)
         if rng.random() < 0.5:
             ths = [float(t) for t in rng.sample(grid + ([INF, -INF] if inf else []), k)]
